@@ -4,6 +4,7 @@ import (
 	"fmt"
 	"regexp"
 	"slices"
+	"strconv"
 	"strings"
 	"testing"
 
@@ -211,8 +212,23 @@ func encodeSome(rt *rapid.T, s, l string) string {
 	return s
 }
 
+// operator and keyword words a command-line front end might be tempted to interpret
+var c15Words = []string{"lt", "le", "eq", "ne", "ge", "gt", "and", "or", "to", "-", "--", "-h", "--help", "help", "version", "=", "==", "<", ">", "<=", ">=", "!=", "..", "..."}
+
 func c15Arg(rt *rapid.T, e eco.Eco, l string, wantRange bool) string {
-	switch rapid.IntRange(0, 12).Draw(rt, l+"k") {
+	switch rapid.IntRange(0, 14).Draw(rt, l+"k") {
+	case 13:
+		return gen.Pick(rt, l+"w", c15Words...)
+	case 14:
+		// a valid but very long argument (8 kB .. 100 kB): the library has no length limit, so the CLI has none either
+		v := gen.Version(rt, e.Name, l+"v")
+		target := gen.Pick(rt, l+"lt", "4097", "8191", "8192", "8193", "9000", "16385", "32769", "65535", "65536", "65537", "100000")
+		n, _ := strconv.Atoi(target)
+		long := gen.LengthenTo(rt, e, v, l+"ll", n)
+		if wantRange {
+			return gen.Pick(rt, l+"lop", ">=", "<=", "=", "") + long
+		}
+		return long
 	case 12:
 		if wantRange {
 			base := gen.Version(rt, e.Name, l+"b")
